@@ -1,5 +1,6 @@
 """C13 - every master-curve row traces back to its interval and data."""
 
+import sqlite3
 from fractions import Fraction
 
 from mc.engine import Space, Result
@@ -24,7 +25,10 @@ RULE = (
     'of THAT interval\'s samples - a rise being the segment (0, initial '
     'level) -> (reference rain depth of its own storm, final level); every '
     'level used is in discrete_zeta and discrete_zeta covers every n with '
-    'min <= n step < max of the stored water levels.  The same oracle is '
+    'min <= n step < max of the stored water levels; the view '
+    'rising_curve_line_segment has exactly one segment per interval of the '
+    'rise curve, carrying that interval\'s offset, its own storm\'s depth and '
+    'the levels at the two ends of the rise.  The same oracle is '
     'evaluated as a state invariant after EVERY sequence of up to 4 (5) '
     'workflow steps (classify, two grid steps, rise, rise -r, recession; '
     'repeats and failing steps included) from one loaded dataset.  Words are paths of '
@@ -319,6 +323,45 @@ def check_tables(connection, s, j):
                          'rising_interval %d has an offset but no crossing '
                          'at any level: it cannot belong to the master '
                          'curve' % start))
+    # ---- the view that draws the rise curve: one straight segment per
+    # interval of the curve, from its offset at the rise's initial level to
+    # offset + storm depth at its final level
+    try:
+        segs = connection.execute(
+            'SELECT interval_start_epoch, rain_depth_offset_mm, '
+            'rain_total_depth_mm, initial_zeta_mm, final_zeta_mm FROM '
+            'rising_curve_line_segment').fetchall()
+    except sqlite3.Error as exc:
+        segs = None
+        viol.append(('line-segment-view-unreadable', repr(exc)[:200]))
+    if segs is not None:
+        offsets = dict(t['rising_interval'])
+        by_start = {}
+        for row in segs:
+            by_start.setdefault(row[0], []).append(row)
+        if set(by_start) != set(offsets) or any(
+                len(v) != 1 for v in by_start.values()):
+            viol.append((
+                'line-segments-are-not-the-intervals-of-the-curve',
+                'rising_curve_line_segment has segments for %r, the rise '
+                'curve consists of the intervals %r'
+                % (sorted((k, len(v)) for k, v in by_start.items())[:6],
+                   sorted(offsets)[:6])))
+        else:
+            for start, (row,) in sorted(by_start.items()):
+                if start not in rises or start not in pair_of_rise or \
+                        pair_of_rise[start] not in ref.storms:
+                    continue
+                depth = float(ref.storms[pair_of_rise[start]][2])
+                want = (offsets[start], depth, wl[start], wl[rises[start]])
+                if any(not abs(a - b) <= 1e-9 * max(abs(b), 1.0)
+                       for a, b in zip(row[1:], want)):
+                    viol.append((
+                        'line-segment-is-not-the-rise',
+                        'segment of rise %d: (offset, depth, initial, '
+                        'final) = %r, the rise has %r' % (start, row[1:],
+                                                          want)))
+                    break
     for table in ('rising_interval_zeta', 'recession_interval_zeta'):
         used = {n for _, n, _ in t[table]}
         if used - grid:
